@@ -2225,7 +2225,7 @@ func (r stack) traverseStack(u any, idx int, indices ...int) (slice any, ok, don
 			slice = u
 			ok = sOK
 			done = true
-		} else {
+		} else if s.IsInit() {
 			// begin new Stack (tv/x) recursion beginning at the NEXT index ...
 			return s.stack.traverse(indices[1:]...)
 		}
@@ -2804,7 +2804,7 @@ func (r stack) unmarshalDefault() (slices []any, err error) {
 	for i := 0; i < r.ulen() && err == nil; i++ {
 		slice, _, _ := r.index(i) // auto-skip config
 		var subSlices []any
-		if sub, ok := stackTypeAliasConverter(slice); ok {
+		if sub, ok := stackTypeAliasConverter(slice); ok && sub.IsInit() {
 			// Instance is Stack/Stack alias;
 			// use native unmarshalDefault.
 			if subSlices, err = sub.unmarshalDefault(); err == nil {
